@@ -113,6 +113,25 @@ type Script struct {
 	// kind fetch: hosts (only FetchKO/Ops used) and the requested (ID, host) list
 	Hosts []Host  `json:"hosts,omitempty"`
 	Req   []ReqID `json:"req,omitempty"`
+	// extension: Fds = kind fetch recorded with every Fetch call (CFds); Page = API script recorded as
+	// the whole response (CPage); Merge/Limit = kind merge (seq.MergeQPRs called directly); Erase = the
+	// sample multisets are left out of the case (bins with >= 8096 samples); Tag = class suffix
+	Fds     bool      `json:"fds,omitempty"`
+	Page    bool      `json:"page,omitempty"`
+	Explain bool      `json:"explain,omitempty"`
+	NoTotal bool      `json:"nototal,omitempty"`
+	Merge   []MergeIn `json:"merge,omitempty"`
+	Limit   int       `json:"limit,omitempty"`
+	Erase   bool      `json:"erase,omitempty"`
+	Tag     string    `json:"tag,omitempty"`
+}
+
+// one QPR handed to seq.MergeQPRs
+type MergeIn struct {
+	Src     int    `json:"src"`
+	IDs     []ID   `json:"ids,omitempty"`
+	X       *Extra `json:"x,omitempty"`
+	NilHist bool   `json:"nilhist,omitempty"`
 }
 
 type ReqID struct {
@@ -131,6 +150,13 @@ type run struct {
 	fetchSeq  []int      // host indices in the order their Fetch was called
 	fetchFail []int
 	streams   map[int][]sentDoc // what each host's stream delivered before its end
+	calls     []callRec         // every Fetch call in call order
+}
+
+type callRec struct {
+	host   int
+	failed bool
+	ids    []ID
 }
 
 type sentDoc struct {
@@ -253,11 +279,14 @@ func (f0 *fakeClient) Fetch(ctx context.Context, in *storeapi.FetchRequest, opts
 	f := f0.env(ctx)
 	f.r.mu.Lock()
 	defer f.r.mu.Unlock()
+	var askedIDs []ID
 	for _, s := range in.Ids {
 		if id, err := seq.FromString(s); err == nil {
 			f.r.fetchIDs[ID{uint64(id.MID), uint64(id.RID)}] = f.idx
+			askedIDs = append(askedIDs, ID{uint64(id.MID), uint64(id.RID)})
 		}
 	}
+	f.r.calls = append(f.r.calls, callRec{host: f.idx, failed: f.h.FetchKO, ids: askedIDs})
 	if f.h.FetchKO {
 		f.r.fetchFail = append(f.r.fetchFail, f.idx)
 		return nil, status.Error(codes.Unavailable, "fetch refused")
@@ -346,6 +375,8 @@ type outcome struct {
 	api     string // grpc:invalid grpc:internal only-error resp
 	apiFlag bool
 	apiCode string // no partial
+	apiTotal int64
+	apiHist  bool // the response carries a histogram
 	// fetch
 	fetched  bool
 	docs     []gotDoc
@@ -390,7 +421,7 @@ func build(sc *Script) *built {
 		return st
 	}
 	cfg := search.Config{ShuffleReplicas: sc.Shuffle}
-	if sc.Kind == "fetch" || sc.Kind == "docs" {
+	if sc.Kind == "fetch" || sc.Kind == "docs" || sc.Kind == "merge" {
 		for i := range sc.Hosts {
 			clients[hostName(n)] = &fakeClient{idx: n, h: &sc.Hosts[i], r: r}
 			n++
@@ -494,12 +525,16 @@ func runOne(ctx context.Context, sc *Script, b *built) (o *outcome) {
 			pull(o, b, it, len(ids))
 			return
 		}
+		if sc.Kind == "merge" {
+			executeMerge(sc, o)
+			return
+		}
 		if sc.API != "" {
 			executeAPI(ctx, sc, b, o)
 			return
 		}
 		sr := &search.SearchRequest{Q: []byte("message:x"), Offset: sc.Off, Size: sc.Size, From: 0, To: 1 << 40,
-			ShouldFetch: !sc.NoFetch, Order: seq.DocsOrderDesc, Interval: seq.MID(sc.Itv)}
+			ShouldFetch: !sc.NoFetch, Order: seq.DocsOrderDesc, Interval: seq.MID(sc.Itv), Explain: sc.Explain}
 		for i := 0; i < sc.NAggs; i++ {
 			sr.AggQ = append(sr.AggQ, search.AggQuery{Field: "f", GroupBy: "g", Func: seq.AggFuncSum})
 		}
@@ -655,7 +690,7 @@ func (x *Extra) coq() string {
 // executeAPI drives the real proxyapi Search / ComplexSearch handler on top of the ingestor
 func executeAPI(ctx context.Context, sc *Script, b *built, o *outcome) {
 	srv := b.srv
-	q := &seqproxyapi.SearchQuery{Query: "message:x", From: timestamppb.New(time.UnixMilli(0)), To: timestamppb.New(time.UnixMilli(1 << 40))}
+	q := &seqproxyapi.SearchQuery{Query: "message:x", From: timestamppb.New(time.UnixMilli(0)), To: timestamppb.New(time.UnixMilli(1 << 40)), Explain: sc.Explain}
 	order := seqproxyapi.Order_ORDER_DESC
 	if sc.Rev {
 		order = seqproxyapi.Order_ORDER_ASC
@@ -670,12 +705,12 @@ func executeAPI(ctx context.Context, sc *Script, b *built, o *outcome) {
 	)
 	if sc.API == "search" {
 		var resp *seqproxyapi.SearchResponse
-		resp, err = srv.Search(ctx, &seqproxyapi.SearchRequest{Query: q, Size: int64(sc.Size), Offset: int64(sc.Off), WithTotal: true, Order: order})
+		resp, err = srv.Search(ctx, &seqproxyapi.SearchRequest{Query: q, Size: int64(sc.Size), Offset: int64(sc.Off), WithTotal: !sc.NoTotal, Order: order})
 		if resp != nil {
 			perr, flag, total, docs = resp.Error, resp.PartialResponse, resp.Total, resp.Docs
 		}
 	} else {
-		req := &seqproxyapi.ComplexSearchRequest{Query: q, Size: int64(sc.Size), Offset: int64(sc.Off), WithTotal: true, Order: order}
+		req := &seqproxyapi.ComplexSearchRequest{Query: q, Size: int64(sc.Size), Offset: int64(sc.Off), WithTotal: !sc.NoTotal, Order: order}
 		if sc.Itv > 0 {
 			req.Hist = &seqproxyapi.HistQuery{Interval: fmt.Sprintf("%dms", sc.Itv)}
 		}
@@ -716,6 +751,7 @@ func executeAPI(ctx context.Context, sc *Script, b *built, o *outcome) {
 		return
 	}
 	o.api, o.apiFlag, o.partial = "resp", flag, flag
+	o.apiTotal, o.apiHist = total, hist != nil
 	or := &obsRest{total: uint64(total)}
 	if hist != nil {
 		for _, bk := range hist.Buckets {
@@ -759,7 +795,7 @@ func idsCoq(l []ID) string {
 	return "[" + strings.Join(p, "; ") + "]"
 }
 
-func tierCoq(t [][]Host, base *int, called []int) string {
+func tierCoq(t [][]Host, base *int, called []int, erase bool) string {
 	rank := map[int]int{}
 	for i, h := range called {
 		if _, ok := rank[h]; !ok {
@@ -790,7 +826,7 @@ func tierCoq(t [][]Host, base *int, called []int) string {
 			var b string
 			switch rp.h.Beh {
 			case "ok":
-				b = "BOk " + idsCoq(rp.h.IDs) + " " + rp.h.X.coq()
+				b = "BOk " + idsCoq(rp.h.IDs) + " " + rp.h.X.erased(erase).coq()
 			case "err":
 				b = "BErr"
 			case "wantsold":
@@ -923,6 +959,14 @@ func record(w *casefile.Writer, sc *Script, o *outcome, input any, suffix string
 			}
 		}
 	}
+	if sc.Kind == "merge" {
+		recordMerge(w, sc, o, input)
+		return
+	}
+	if sc.Kind == "fetch" && sc.Fds {
+		recordFds(w, sc, o, input)
+		return
+	}
 	if sc.Kind == "fetch" {
 		w.Count("fetch:hosts=" + strconv.Itoa(len(sc.Hosts)))
 		if o.errKind == "fetch" {
@@ -944,6 +988,16 @@ func record(w *casefile.Writer, sc *Script, o *outcome, input any, suffix string
 	}
 	if sc.Kind == "docs" {
 		w.Count("docs:hosts=" + strconv.Itoa(len(sc.Hosts)))
+		{
+			cl := "documents-decision-ok"
+			if o.errKind == "fetch" {
+				cl = "documents-decision-all-failed"
+			} else if len(o.r.fetchFail) > 0 {
+				cl = "documents-decision-some-failed"
+			}
+			w.Add(fmt.Sprintf("CFdsErr %s %s", callsCoq(o.r, true), casefile.Bool(o.errKind == "fetch")), cl,
+				len(o.r.calls) >= 2, input, implJSON(o))
+		}
 		if o.errKind == "fetch" {
 			if len(o.r.fetchSeq) > 0 || len(sc.Orig) == 0 {
 				w.Violate("fetch-error-with-live-store", "Documents failed although a store accepted the fetch", input)
@@ -980,14 +1034,18 @@ func record(w *casefile.Writer, sc *Script, o *outcome, input any, suffix string
 		called = o.r.searchSeq
 	}
 	base := 0
-	hot := tierCoq(sc.Hot, &base, called)
-	hotread := tierCoq(sc.HotRead, &base, called)
-	cold := tierCoq(sc.Cold, &base, called)
+	hot := tierCoq(sc.Hot, &base, called, sc.Erase)
+	hotread := tierCoq(sc.HotRead, &base, called, sc.Erase)
+	cold := tierCoq(sc.Cold, &base, called, sc.Erase)
 	var ffail []int
 	for i, h := range allHosts(sc) {
 		if h.FetchKO && !sc.NoFetch {
 			ffail = append(ffail, i)
 		}
+	}
+	if sc.Page {
+		recordPage(w, sc, o, input, hot, hotread, cold)
+		return
 	}
 	var impl, cl string
 	switch {
@@ -1013,7 +1071,7 @@ func record(w *casefile.Writer, sc *Script, o *outcome, input any, suffix string
 		impl = "(SErr " + k + ")"
 		cl = "search-error-" + o.errKind
 	default:
-		impl = fmt.Sprintf("(SOk %s %s %s)", casefile.Bool(o.partial), reqCoq(o.ids), o.obs.coq())
+		impl = fmt.Sprintf("(SOk %s %s %s)", casefile.Bool(o.partial), reqCoq(o.ids), o.obs.erased(sc.Erase).coq())
 		cl = "search-complete"
 		if o.partial {
 			cl = "search-partial"
@@ -1030,6 +1088,9 @@ func record(w *casefile.Writer, sc *Script, o *outcome, input any, suffix string
 	}
 	w.Count(fmt.Sprintf("topology:hot=%dx%d,cold=%d", len(sc.Hot)+len(sc.HotRead), maxRepl(sc), len(sc.Cold)))
 	cl += suffix
+	if sc.Tag != "" {
+		cl += "-" + sc.Tag
+	}
 	ctor := "CSearch"
 	if sc.API != "" {
 		ctor = "CApi"
@@ -1090,6 +1151,548 @@ func hasFailure(sc *Script) bool {
 		}
 	}
 	return false
+}
+
+
+// ---------------------------------------------------------------- extension: rendering, merge, page
+
+func (x *Extra) erased(erase bool) *Extra {
+	if x == nil || !erase {
+		return x
+	}
+	c := *x
+	c.Aggs = nil
+	for _, a := range x.Aggs {
+		na := Agg{NE: a.NE}
+		for _, b := range a.Bins {
+			b.Samples = nil
+			na.Bins = append(na.Bins, b)
+		}
+		c.Aggs = append(c.Aggs, na)
+	}
+	return &c
+}
+
+func (o *obsRest) erased(erase bool) *obsRest {
+	if o == nil || !erase {
+		return o
+	}
+	c := *o
+	c.aggs = nil
+	for _, a := range o.aggs {
+		na := obsAgg{ne: a.ne}
+		for _, b := range a.bins {
+			b.samples = nil
+			na.bins = append(na.bins, b)
+		}
+		c.aggs = append(c.aggs, na)
+	}
+	return &c
+}
+
+// the Fetch calls in call order: (host, FFail | FStream docs); bare = without the stream contents
+func callsCoq(r *run, bare bool) string {
+	var p []string
+	for _, c := range r.calls {
+		if c.failed {
+			p = append(p, fmt.Sprintf("(%d, FFail)", c.host))
+			continue
+		}
+		var ds []string
+		if !bare {
+			for _, d := range r.streams[c.host] {
+				ds = append(ds, fmt.Sprintf("(%s, %d%%N)", d.id.coq(), d.tag))
+			}
+		}
+		p = append(p, fmt.Sprintf("(%d, FStream [%s])", c.host, strings.Join(ds, "; ")))
+	}
+	return "[" + strings.Join(p, "; ") + "]"
+}
+
+func askedCoq(r *run) string {
+	var p []string
+	for _, c := range r.calls {
+		p = append(p, fmt.Sprintf("(%d, %s)", c.host, idsCoq(c.ids)))
+	}
+	return "[" + strings.Join(p, "; ") + "]"
+}
+
+func recordFds(w *casefile.Writer, sc *Script, o *outcome, input any) {
+	w.Count("fds:hosts=" + strconv.Itoa(len(sc.Hosts)))
+	impl := "FdErr"
+	cl := "fds-all-failed"
+	if o.errKind != "fetch" {
+		impl = "(FdOk " + docsCoq(o.docs) + ")"
+		switch {
+		case len(sc.Req) == 0:
+			cl = "fds-empty-request"
+		case len(o.r.fetchFail) > 0:
+			cl = "fds-some-failed"
+		default:
+			cl = "fds-none-failed"
+		}
+	}
+	for _, h := range sc.Hosts {
+		for _, op := range h.Ops {
+			if op.Op == "trunc" && op.Err {
+				w.Count("fds:stream-breaks-after-k-docs")
+			}
+		}
+	}
+	w.Add(fmt.Sprintf("CFds %s %s %s %s", reqCoq(sc.Req), callsCoq(o.r, false), askedCoq(o.r), impl),
+		cl, len(sc.Req) >= 2 && len(o.r.calls) >= 1, input, implJSON(o))
+}
+
+func extraToQPR(m *MergeIn) *seq.QPR {
+	q := &seq.QPR{}
+	for _, id := range m.IDs {
+		q.IDs = append(q.IDs, seq.IDSource{ID: id.seq(), Source: uint64(m.Src), Hint: "f"})
+	}
+	if !m.NilHist {
+		q.Histogram = map[seq.MID]uint64{}
+	}
+	if x := m.X; x != nil {
+		q.Total = x.Total
+		if !m.NilHist {
+			for _, kv := range x.Hist {
+				q.Histogram[seq.MID(kv[0])] = kv[1]
+			}
+		}
+		for _, a := range x.Aggs {
+			as := seq.AggregatableSamples{SamplesByBin: map[seq.AggBin]*seq.SamplesContainer{}, NotExists: a.NE}
+			for _, b := range a.Bins {
+				smp := make([]float64, len(b.Samples))
+				for i, v := range b.Samples {
+					smp[i] = float64(v)
+				}
+				as.SamplesByBin[seq.AggBin{MID: seq.MID(b.MID), Token: fmt.Sprintf("t%d", b.Tok)}] = &seq.SamplesContainer{
+					Min: float64(b.Min), Max: float64(b.Max), Sum: float64(b.Sum), Total: b.Total, NotExists: b.NE, Samples: smp}
+			}
+			q.Aggs = append(q.Aggs, as)
+		}
+		for i := 0; i < x.Errs; i++ {
+			q.Errors = append(q.Errors, seq.ErrorSource{ErrStr: "soft;", Source: uint64(m.Src)})
+		}
+	}
+	return q
+}
+
+// executeMerge calls seq.MergeQPRs the way Ingestor.Search does
+func executeMerge(sc *Script, o *outcome) {
+	var qprs []*seq.QPR
+	for i := range sc.Merge {
+		qprs = append(qprs, extraToQPR(&sc.Merge[i]))
+	}
+	dst := &seq.QPR{Histogram: make(map[seq.MID]uint64), Aggs: make([]seq.AggregatableSamples, sc.NAggs)}
+	order := seq.DocsOrderDesc
+	if sc.Rev {
+		order = seq.DocsOrderAsc
+	}
+	seq.MergeQPRs(dst, qprs, sc.Limit, seq.MID(sc.Itv), order)
+	o.obs = obsFrom(dst)
+	for _, x := range dst.IDs {
+		o.ids = append(o.ids, ReqID{ID: ID{uint64(x.ID.MID), uint64(x.ID.RID)}, Host: int(x.Source)})
+	}
+}
+
+func recordMerge(w *casefile.Writer, sc *Script, o *outcome, input any) {
+	var qs, xs []string
+	keys := map[uint64]int{}
+	for _, m := range sc.Merge {
+		qs = append(qs, fmt.Sprintf("(%d, %s)", m.Src, idsCoq(m.IDs)))
+		x := m.X
+		if x != nil && m.NilHist {
+			c := *x
+			c.Hist = nil
+			x = &c
+		}
+		xs = append(xs, x.erased(sc.Erase).coq())
+		if x != nil {
+			for _, kv := range x.Hist {
+				keys[kv[0]]++
+			}
+		}
+	}
+	cl := "merge-direct"
+	if sc.Itv > 0 {
+		shared := false
+		for _, n := range keys {
+			if n > 1 {
+				shared = true
+			}
+		}
+		if shared {
+			cl = "merge-hist-overlapping-keys"
+		} else {
+			cl = "merge-hist-disjoint-keys"
+		}
+	}
+	if sc.Erase {
+		cl = "merge-agg-unbounded"
+		w.Count("agg:bins-with->=8096-samples")
+	}
+	w.Count(fmt.Sprintf("merge:qprs=%d", len(sc.Merge)))
+	w.Add(fmt.Sprintf("CMerge %s %d%%N %d %d [%s] [%s] %s %s", casefile.Bool(sc.Rev), sc.Itv, sc.Limit, sc.NAggs,
+		strings.Join(qs, "; "), strings.Join(xs, "; "), reqCoq(o.ids), o.obs.erased(sc.Erase).coq()),
+		cl, len(sc.Merge) >= 2, input, implJSON(o))
+}
+
+func recordPage(w *casefile.Writer, sc *Script, o *outcome, input any, hot, hotread, cold string) {
+	kind := "KSearch"
+	if sc.API == "complex" {
+		kind = "KComplex"
+	}
+	hist := "None"
+	if sc.API == "complex" && sc.Itv > 0 {
+		hist = fmt.Sprintf("(Some %d%%N)", sc.Itv)
+	}
+	q := fmt.Sprintf("(mkAreq %s (%d)%%Z (%d)%%Z %s %s %s %s)", kind, sc.Off, sc.Size, casefile.Bool(sc.Rev), hist,
+		casefile.Bool(sc.Explain), casefile.Bool(!sc.NoTotal))
+	var impl, cl string
+	switch o.api {
+	case "grpc:invalid":
+		impl, cl = "(DErr GInvalidArgument)", "page-invalid-argument"
+	case "grpc:internal":
+		impl, cl = "(DErr GInternal)", "page-internal"
+	case "only-error":
+		impl, cl = "DOnlyError", "page-only-error"
+	default:
+		code := "CNo"
+		if o.apiCode == "partial" {
+			code = "CPartial"
+		}
+		var ds []string
+		for _, d := range o.docs {
+			ds = append(ds, fmt.Sprintf("(%s, %d%%N)", d.id.coq(), d.tag))
+		}
+		h := "None"
+		if o.apiHist {
+			var hs []string
+			for _, kv := range o.obs.hist {
+				hs = append(hs, fmt.Sprintf("(%d%%N, %d%%Z)", kv[0], kv[1]))
+			}
+			h = "(Some [" + strings.Join(hs, "; ") + "])"
+		}
+		impl = fmt.Sprintf("(DResp %s %s [%s] (%d)%%Z %s)", casefile.Bool(o.apiFlag), code, strings.Join(ds, "; "), o.apiTotal, h)
+		cl = "page-resp-" + o.apiCode
+		if len(o.docs) == 0 {
+			cl += "-no-docs"
+		}
+	}
+	switch {
+	case sc.Size <= 0 || sc.Off < 0:
+		w.Count("page:size<=0-or-negative")
+	case sc.Off >= 5:
+		w.Count("page:offset-beyond-result")
+	}
+	if sc.Explain {
+		w.Count("page:explain")
+	}
+	if len(o.r.fetchFail) > 0 {
+		w.Count("page:some-fetch-call-failed")
+	}
+	w.Add(fmt.Sprintf("CPage %s %s %s %s %s %s %s", q, hot, hotread, cold, callsCoq(o.r, false), askedCoq(o.r), impl),
+		cl+"-"+sc.API, hasFailure(sc) || len(o.r.fetchFail) > 0, input, implJSON(o))
+}
+
+// ---------------------------------------------------------------- extension: generators
+
+// FetchDocsStream with scripted call failures: all fail / some fail / first fails / rare; streams that
+// break with an error after k documents
+func genFds(r *rng.R) *Script {
+	sc := genFetch(r)
+	sc.Fds = true
+	mode := r.Intn(5)
+	for i := range sc.Hosts {
+		h := &sc.Hosts[i]
+		switch mode {
+		case 0:
+			h.FetchKO = true
+		case 1:
+			h.FetchKO = r.Bool()
+		case 2:
+			h.FetchKO = i == 0
+		default:
+			h.FetchKO = r.Chance(1, 6)
+		}
+		if r.Chance(1, 3) {
+			h.Ops = append(h.Ops, StreamOp{Op: "trunc", I: r.Intn(16), Err: true})
+		}
+	}
+	return sc
+}
+
+func genBins(r *rng.R, mids []int) Agg {
+	ag := Agg{NE: int64(r.Range(0, 2))}
+	seen := map[[2]uint64]bool{}
+	for k := r.Range(0, 3); k > 0; k-- {
+		key := [2]uint64{uint64(rng.Pick(r, mids)), uint64(r.Range(0, 2))}
+		if seen[key] {
+			continue
+		}
+		seen[key] = true
+		b := Bin{MID: key[0], Tok: key[1], NE: int64(r.Range(0, 2)), Total: int64(r.Range(0, 3))}
+		fillBin(r, &b)
+		ag.Bins = append(ag.Bins, b)
+	}
+	return ag
+}
+
+// fillBin draws b.Total integer values: Sum/Min/Max exact, three quarters of the values kept as samples
+func fillBin(r *rng.R, b *Bin) {
+	if b.Total > 0 {
+		b.Min, b.Max = math.MaxInt32, math.MinInt32
+		for i := int64(0); i < b.Total; i++ {
+			v := int64(r.Range(-5, 20))
+			b.Sum += v
+			if v < b.Min {
+				b.Min = v
+			}
+			if v > b.Max {
+				b.Max = v
+			}
+			if b.Total > 100 || !r.Chance(1, 4) {
+				b.Samples = append(b.Samples, v)
+			}
+		}
+	} else if r.Chance(1, 2) {
+		b.Min, b.Max, b.Sum = -7, 33, 5
+	}
+}
+
+// seq.MergeQPRs directly: IDs around bucket borders, duplicates across (and inside) the answers,
+// histogram keys shared by the answers or disjoint, zero counts, a nil histogram; big = one bin gets
+// >= 8096 samples in total (the sample multiset is then left out of the case)
+func genMerge(r *rng.R, big bool) *Script {
+	sc := &Script{Kind: "merge", Rev: r.Chance(1, 3), Limit: r.Range(0, 12), NAggs: r.Range(0, 2)}
+	sc.Itv = uint64(rng.Pick(r, []int{0, 1, 2, 5, 1000}))
+	base := sc.Itv
+	if base == 0 {
+		base = 10
+	}
+	n := r.Range(0, 4)
+	if big {
+		n, sc.NAggs, sc.Erase = r.Range(2, 3), 1, true
+	}
+	shared := r.Bool()
+	for i := 0; i < n; i++ {
+		m := MergeIn{Src: i}
+		if r.Chance(1, 8) {
+			m.Src = r.Intn(n)
+		}
+		seen := map[ID]bool{}
+		for k := r.Range(0, 6); k > 0; k-- {
+			mid := uint64(r.Range(1, 3))*base + uint64(r.Range(0, 2)) - 1
+			id := ID{mid, uint64(r.Range(0, 1))}
+			if seen[id] && !r.Chance(1, 10) {
+				continue
+			}
+			seen[id] = true
+			m.IDs = append(m.IDs, id)
+		}
+		if !r.Chance(1, 8) {
+			sort.Slice(m.IDs, func(a, b int) bool {
+				x, y := m.IDs[a], m.IDs[b]
+				if sc.Rev {
+					x, y = y, x
+				}
+				return x.M > y.M || (x.M == y.M && x.R > y.R)
+			})
+		}
+		if !r.Chance(1, 8) {
+			x := &Extra{Total: uint64(r.Range(0, 12))}
+			if r.Chance(1, 4) {
+				x.Total = 0
+			}
+			if r.Chance(1, 30) {
+				x.Total = 1<<63 + uint64(r.Intn(3))
+			}
+			hs := map[uint64]bool{}
+			for k := r.Range(0, 4); k > 0; k-- {
+				key := uint64(r.Range(0, 4)) * base
+				if !shared {
+					key = uint64(i*5+r.Range(0, 4)) * base
+				}
+				if hs[key] {
+					continue
+				}
+				hs[key] = true
+				x.Hist = append(x.Hist, [2]uint64{key, uint64(r.Range(0, 3))})
+			}
+			na := sc.NAggs
+			if na > 0 && r.Chance(1, 6) {
+				na--
+			}
+			for a := 0; a < na; a++ {
+				ag := genBins(r, []int{0, 5})
+				if big && a == 0 {
+					b := Bin{MID: 0, Tok: 9, NE: int64(r.Range(0, 2)), Total: int64(r.Range(3000, 5000))}
+					if i == 0 {
+						b.Total += 3000
+					}
+					fillBin(r, &b)
+					ag.Bins = append(ag.Bins, b)
+				}
+				x.Aggs = append(x.Aggs, ag)
+			}
+			if r.Chance(1, 8) {
+				x.Errs = r.Range(1, 2)
+			}
+			m.X = x
+			m.NilHist = r.Chance(1, 8)
+		}
+		sc.Merge = append(sc.Merge, m)
+	}
+	return sc
+}
+
+// the whole API response: paging shapes (size 0, negative size / offset, offset beyond the result, small
+// pages inside the result), explain, with_total, any pattern of failing fetch calls, totals above 2^63
+func genPage(r *rng.R) *Script {
+	sc := genSearch(r)
+	sc.Page, sc.Shuffle, sc.NoFetch, sc.NAggs, sc.Itv = true, false, false, 0, 0
+	sc.API = "search"
+	if r.Bool() {
+		sc.API = "complex"
+	}
+	switch r.Intn(8) {
+	case 0:
+		sc.Size = 0
+	case 1:
+		sc.Off = r.Range(5, 30)
+	case 2:
+		if r.Bool() {
+			sc.Size = -r.Range(1, 3)
+		} else {
+			sc.Off = -r.Range(1, 3)
+		}
+	case 3, 4:
+		sc.Off, sc.Size = r.Range(0, 4), r.Range(1, 3)
+	default:
+		if sc.Size == 0 {
+			sc.Size = r.Range(1, 8)
+		}
+	}
+	sc.Explain, sc.NoTotal = r.Chance(1, 4), r.Chance(1, 3)
+	limit := sc.Off + sc.Size
+	if limit < 0 {
+		limit = 0
+	}
+	disjoint := r.Bool()
+	si := 0
+	for _, tier := range [][][]Host{sc.Hot, sc.HotRead, sc.Cold} {
+		for s := range tier {
+			for k := range tier[s] {
+				h := &tier[s][k]
+				h.X, h.FetchKO = nil, false
+				if h.Beh == "ok" {
+					h.IDs = genIDs(r, si, disjoint, limit, sc.Rev)
+					if sc.Size == 0 && r.Bool() { // stores answering a hist-only query still report IDs sometimes
+						h.IDs = genIDs(r, si, disjoint, 6, sc.Rev)
+					}
+				}
+			}
+			si++
+		}
+	}
+	genExtras(r, sc)
+	if r.Chance(1, 20) {
+		for _, h := range allHosts(sc) {
+			if h.X != nil {
+				h.X.Total = 1<<63 + uint64(r.Intn(4))
+				break
+			}
+		}
+	}
+	switch r.Intn(6) {
+	case 0:
+		for _, h := range allHosts(sc) {
+			h.FetchKO = true
+		}
+	case 1, 2:
+		for _, h := range allHosts(sc) {
+			h.FetchKO = r.Chance(1, 3)
+		}
+	}
+	return sc
+}
+
+// aggregation bins that receive >= 8096 samples through Ingestor.Search (reservoir replacement)
+func genAggBig(r *rng.R) *Script {
+	sc := &Script{Kind: "search", Off: 0, Size: r.Range(1, 4), NAggs: 1, Erase: true, Tag: "agg-unbounded", NoFetch: true}
+	n := r.Range(2, 3)
+	for s := 0; s < n; s++ {
+		h := Host{Beh: "ok", IDs: genIDs(r, s, false, sc.Size, false)}
+		ag := genBins(r, []int{0, 5})
+		b := Bin{MID: 0, Tok: 9, NE: int64(r.Range(0, 2)), Total: int64(r.Range(3000, 5000))}
+		if s == 0 {
+			b.Total += 3000
+		}
+		fillBin(r, &b)
+		ag.Bins = append(ag.Bins, b)
+		h.X = &Extra{Total: uint64(r.Range(0, 12)), Aggs: []Agg{ag}}
+		reps := []Host{h}
+		if r.Bool() {
+			reps = []Host{{Beh: "err"}, h}
+		}
+		sc.Hot = append(sc.Hot, reps)
+	}
+	if r.Chance(1, 3) {
+		sc.Hot = append(sc.Hot, []Host{{Beh: "err"}})
+	}
+	return sc
+}
+
+// histogram key sets through Ingestor.Search / ComplexSearch: IDs on bucket borders held by two shards,
+// shards reporting disjoint or overlapping (or zero) buckets
+func genHist(r *rng.R) *Script {
+	sc := &Script{Kind: "search", Off: r.Range(0, 2), Size: r.Range(1, 8), Rev: r.Chance(1, 4), Tag: "histkeys"}
+	sc.Itv = uint64(rng.Pick(r, []int{1, 2, 5, 1000}))
+	if r.Chance(1, 3) {
+		sc.API = "complex"
+	}
+	shared := r.Bool()
+	n := r.Range(2, 3)
+	for s := 0; s < n; s++ {
+		h := Host{Beh: "ok"}
+		seen := map[ID]bool{}
+		for k := r.Range(0, 5); k > 0; k-- {
+			id := ID{uint64(r.Range(1, 3))*sc.Itv + uint64(r.Range(0, 2)) - 1, uint64(r.Range(0, 1))}
+			if !seen[id] {
+				seen[id] = true
+				h.IDs = append(h.IDs, id)
+			}
+		}
+		sort.Slice(h.IDs, func(a, b int) bool {
+			x, y := h.IDs[a], h.IDs[b]
+			if sc.Rev {
+				x, y = y, x
+			}
+			return x.M > y.M || (x.M == y.M && x.R > y.R)
+		})
+		x := &Extra{Total: uint64(r.Range(0, 12))}
+		hs := map[uint64]bool{}
+		for k := r.Range(0, 4); k > 0; k-- {
+			key := uint64(r.Range(0, 4)) * sc.Itv
+			if !shared {
+				key = uint64(s*5+r.Range(0, 4)) * sc.Itv
+			}
+			if !hs[key] {
+				hs[key] = true
+				x.Hist = append(x.Hist, [2]uint64{key, uint64(r.Range(0, 3))})
+			}
+		}
+		h.X = x
+		reps := []Host{h}
+		if r.Chance(1, 4) {
+			reps = []Host{{Beh: "err"}, h}
+		}
+		sc.Hot = append(sc.Hot, reps)
+	}
+	if r.Chance(1, 4) {
+		sc.Hot = append(sc.Hot, []Host{{Beh: "err"}})
+	}
+	return sc
 }
 
 // ---------------------------------------------------------------- generators
@@ -1378,8 +1981,12 @@ func genSeq(r *rng.R) *Script {
 func genDocs(r *rng.R) *Script {
 	sc := &Script{Kind: "docs"}
 	nh := r.Range(1, 3)
+	allKO := r.Chance(1, 10)
 	for i := 0; i < nh; i++ {
 		h := Host{FetchKO: r.Chance(1, 12)}
+		if allKO {
+			h.FetchKO = true
+		}
 		if !r.Chance(1, 5) {
 			h.Ops = append(h.Ops, StreamOp{Op: "mask", I: r.Intn(1 << 16)})
 		}
@@ -1468,7 +2075,7 @@ func runAll(w *casefile.Writer, scripts []*Script) {
 	outs := make([][]*outcome, len(scripts))
 	var wg sync.WaitGroup
 	ch := make(chan int)
-	for k := 0; k < 6; k++ {
+	for k := 0; k < 4; k++ {
 		wg.Add(1)
 		go func() {
 			defer wg.Done()
@@ -1524,7 +2131,7 @@ func main() {
 		os.Exit(2)
 	}
 	logger.SetLevel(zapcore.FatalLevel)
-	w, err := casefile.New(*out, "C16", "From VLib Require Import CaseLib.\nFrom C16 Require Import Model CaseDefs.", 300)
+	w, err := casefile.New(*out, "C16", "From VLib Require Import CaseLib.\nFrom C16 Require Import Model ModelExt CaseDefs.", 300)
 	if err != nil {
 		panic(err)
 	}
@@ -1537,8 +2144,10 @@ func main() {
 	}
 	r := rng.New(*seed)
 	nSearch, nSeq, nFetch, nDocs := 2500, 1000, 2000, 1200
+	nFds, nMerge, nMergeBig, nPage, nAggBig, nHist := 700, 600, 8, 800, 6, 350
 	if *tier == "thorough" {
 		nSearch, nSeq, nFetch, nDocs = 40000, 15000, 25000, 12000
+		nFds, nMerge, nMergeBig, nPage, nAggBig, nHist = 12000, 12000, 60, 14000, 40, 6000
 	}
 	scripts := genExhaustive()
 	w.Exhaust = true
@@ -1554,6 +2163,24 @@ func main() {
 	}
 	for i := 0; i < nDocs; i++ {
 		scripts = append(scripts, genDocs(r.Fork()))
+	}
+	for i := 0; i < nFds; i++ {
+		scripts = append(scripts, genFds(r.Fork()))
+	}
+	for i := 0; i < nMerge; i++ {
+		scripts = append(scripts, genMerge(r.Fork(), false))
+	}
+	for i := 0; i < nMergeBig; i++ {
+		scripts = append(scripts, genMerge(r.Fork(), true))
+	}
+	for i := 0; i < nPage; i++ {
+		scripts = append(scripts, genPage(r.Fork()))
+	}
+	for i := 0; i < nAggBig; i++ {
+		scripts = append(scripts, genAggBig(r.Fork()))
+	}
+	for i := 0; i < nHist; i++ {
+		scripts = append(scripts, genHist(r.Fork()))
 	}
 	runAll(w, scripts)
 	refuseCases(w, r, 200)
